@@ -106,10 +106,12 @@ func runCompleteness(c *core.Ctx) {
 	c.CountN("registry:variables-covered", int64(len(res.parsedVars)-len(res.missingVars)))
 	for _, v := range res.missingVars {
 		c.Count("registry:missing:" + v)
+		c.CrossNote("C11", "COVERAGE GAP: stdlib variable "+v+" (function.New) is not in the driver's registry, so it was not exercised", res.dir)
 		fmt.Fprintf(os.Stderr, "C11 COVERAGE GAP: stdlib variable %s (function.New) is not in the registry\n", v)
 	}
 	for _, v := range res.missingCtors {
 		c.Count("registry:missing-constructor:" + v)
+		c.CrossNote("C11", "COVERAGE GAP: stdlib constructor "+v+" (returns function.New) is not in the driver's registry", res.dir)
 		fmt.Fprintf(os.Stderr, "C11 COVERAGE GAP: stdlib constructor %s (returns function.New) is not in the registry\n", v)
 	}
 	for _, v := range res.staleVars {
@@ -285,13 +287,13 @@ func checkCase(c *core.Ctx, idx int64, d *fnDef, args []cty.Value) {
 	switch {
 	case o.Panicked:
 		c.Count("outcome:go-panic")
-		pc := core.PanicClass(o.PanicMsg)
+		pc := pclass(o.PanicMsg)
 		reported[pc] = true
 		c.Violate(site, "panic: "+pc, classOnce(), witness, "Go panic out of Function.Call: "+o.PanicMsg+"\n"+o.Stack)
 	case err != nil:
 		if msg, isPanic := panicErrorOf(err); isPanic {
 			c.Count("outcome:panic-error")
-			pc := core.PanicClass(msg)
+			pc := pclass(msg)
 			reported[pc] = true
 			c.Violate(site, "PanicError: "+pc, classOnce(), witness, "Function.Call returned function.PanicError: "+msg+"\n"+stackOf(err))
 		} else {
@@ -321,14 +323,14 @@ func checkCase(c *core.Ctx, idx int64, d *fnDef, args []cty.Value) {
 	switch {
 	case ov.Panicked:
 		c.Count("outcome-rtv:go-panic")
-		if pc := core.PanicClass(ov.PanicMsg); !reported[pc] {
+		if pc := pclass(ov.PanicMsg); !reported[pc] {
 			reported[pc] = true
 			c.Violate(site, "panic: "+pc, classOnce(), witness, "Go panic out of Function.ReturnTypeForValues: "+ov.PanicMsg+"\n"+ov.Stack)
 		}
 	case errv != nil:
 		if msg, isPanic := panicErrorOf(errv); isPanic {
 			c.Count("outcome-rtv:panic-error")
-			if pc := core.PanicClass(msg); !reported[pc] {
+			if pc := pclass(msg); !reported[pc] {
 				reported[pc] = true
 				c.Violate(site, "PanicError: "+pc, classOnce(), witness, "Function.ReturnTypeForValues returned function.PanicError: "+msg+"\n"+stackOf(errv))
 			}
@@ -348,14 +350,14 @@ func checkCase(c *core.Ctx, idx int64, d *fnDef, args []cty.Value) {
 	switch {
 	case ot.Panicked:
 		c.Count("outcome-rt:go-panic")
-		if pc := core.PanicClass(ot.PanicMsg); !reported[pc] {
+		if pc := pclass(ot.PanicMsg); !reported[pc] {
 			reported[pc] = true
 			c.Violate(site, "panic: "+pc, "type-only", d.name+".ReturnType("+fmtTypes(types)+")", "Go panic out of Function.ReturnType: "+ot.PanicMsg+"\n"+ot.Stack)
 		}
 	case errt != nil:
 		if msg, isPanic := panicErrorOf(errt); isPanic {
 			c.Count("outcome-rt:panic-error")
-			if pc := core.PanicClass(msg); !reported[pc] {
+			if pc := pclass(msg); !reported[pc] {
 				reported[pc] = true
 				c.Violate(site, "PanicError: "+pc, "type-only", d.name+".ReturnType("+fmtTypes(types)+")", "Function.ReturnType returned function.PanicError: "+msg+"\n"+stackOf(errt))
 			}
@@ -407,6 +409,15 @@ func checkCase(c *core.Ctx, idx int64, d *fnDef, args []cty.Value) {
 	if c.WantSample() && idx%97 == 0 {
 		c.Sample(map[string]any{"call": witness, "result": show(got), "ReturnTypeForValues": fmt.Sprintf("%#v", tv), "ReturnType": fmt.Sprintf("%#v / %v", tt, errt)})
 	}
+}
+
+// pclass is core.PanicClass with a parenthesised tail (which embeds types) cut off.
+func pclass(msg string) string {
+	c := core.PanicClass(msg)
+	if i := strings.Index(c, " ("); i > 0 {
+		c = c[:i]
+	}
+	return c
 }
 
 // stackOf extracts the go-cty frames of the stack a PanicError carries.
